@@ -23,9 +23,9 @@ INTS = {"i1": ["12", "-7", "+3", "0"], "i2": ["5", "1000000", "-0", "42"]}
 FLOATS = {"f1": ["5.4", "-0.25", ".5", "3.", "1.5e3", "2.E-2"], "f2": ["0.125", "-1.25E+2", "+.75", "10.0", "6.02e23", "9.5"]}
 QSTRS = {"s1": ["Hello", "a b  c", "it's", 'say "hi"', "caf\u00e9 \u00fc\u4e2d", ""],
          "s2": ["x,y=(1)[2]:#z", "C:\\temp\\new.csv", "tab\there", "two\nlines", "\\", "ends with backslash-quote \\\""],
-         "s3": ["/Path/To/123.txt", " lead and trail ", "100%", "\u00b5g/L", "a\\\\b", "'q'"]}
-BARES = {"w1": ["Foo", "/Path/To/123.txt", "x_1.y_2", "A+/-B", "file.txt", "3d"],
-         "w2": ["LowToHigh", "/a b/c d.csv", "_x", "a.b.c", "data/in.csv", "123abc"],
+         "s3": ["/Other/Path/9.txt", " lead and trail ", "100%", "\u00b5g/L", "a\\\\b", "'q'"]}
+BARES = {"w1": ["Foo", "/Path/To/123.txt", "x_1.y_2", "A+/-B", "file.txt", "3d", "False positives removed"],
+         "w2": ["LowToHigh", "/a b/c d.csv", "_x", "a.b.c", "data/in.csv", "123abc", "Not True"],
          # unquoted strings containing a colon are only written as whole argument values (inside a list "a:b" is a key:value pair)
          "w3": ["C:\\path\\to\\thing", "http://host/x", "a:b", "D:\\x y\\z.nc", "k:v1", "x:/y"]}
 KEYS = {"k1": ["Color", "units", "Key_1"], "k2": ["DisplayName", "k", "Z9"]}
